@@ -962,3 +962,42 @@ def sched_div(ctx: Ctx) -> None:
     for d, b, el in bad:
         ctx.ob(d, b, False, f"`{unparse(b, 50)}` divides by a value computed from an elapsed time (`{unparse(el, 40)}`): 0.0 on a coarse clock → ZeroDivisionError ends the map although every task succeeded", sel=f"div-elapsed:{ctx.anon(d, b, 40)}")
     ctx.ob(repo.get(f"{A.RT_BACKUP}.should_launch_backup"), None, not bad, f"{n_div} division(s) in the scheduling code, none by an elapsed time", sel="div-elapsed:scan", nontrivial=False)
+
+
+@rule("BATCH-COVER-1", props=["C08", "C13", "C07"], floor=2)
+def batch_cover(ctx: Ctx) -> None:
+    """the batching helper the parallel map draws its inputs from hands out *every* input: it
+    slices one iterator until a slice comes back empty (or is itertools.batched); a grouper
+    built on zip() stops at the first short group and silently drops the trailing inputs — the
+    map then ends normally with fewer results than inputs"""
+    repo = ctx.repo
+    d = _map_def(ctx)
+    calls = [c for c in d.own_nodes() if isinstance(c, ast.Call) and any(t.kind == "def" and t.ref.name == "batched" for t in repo.resolve_call(c, d, d.module))]
+    ext = [c for c in d.own_nodes() if isinstance(c, ast.Call) and (attr_chain(c.func) or "") in ("itertools.batched", "batched") and not calls]
+    if ext:
+        ctx.ob(d, ext[0], True, "input batches come from itertools.batched", sel="batch:source")
+        ctx.ob(d, ext[0], True, "itertools.batched yields the last, shorter batch", sel="batch:cover")
+        return
+    ctx.need(calls, "the parallel map does not draw its batches from a batching helper")
+    h = next(t.ref for t in repo.resolve_call(calls[0], d, d.module) if t.kind == "def" and t.ref.name == "batched")
+    # the map passes its whole input and the user's batch size
+    c = calls[0]
+    ok = len(c.args) >= 2 and isinstance(c.args[0], ast.Name) and c.args[0].id in d.params
+    ctx.ob(d, c, ok, "the whole input iterable is handed to the batching helper", sel="batch:source")
+    zips = [n for n in h.own_nodes() if isinstance(n, ast.Call) and isinstance(n.func, ast.Name) and n.func.id == "zip"]
+    slices = [n for n in h.own_nodes() if isinstance(n, ast.Call) and (attr_chain(n.func) or "").split(".")[-1] in ("islice", "batched")]
+    sub = [n for n in h.own_nodes() if isinstance(n, ast.Subscript) and isinstance(n.slice, ast.Slice)]
+    if zips:
+        ctx.ob(
+            h,
+            zips[0],
+            False,
+            f"`{unparse(zips[0], 40)}` groups by zip(): zip stops at the first exhausted iterator, so a last group shorter than n is dropped (and an input shorter than n yields nothing at all)",
+            sel="batch:cover",
+            firm=True,
+        )
+        return
+    ok = bool(slices or sub)
+    if not ok:
+        ok = ctx.present(h, False, "batched(): islice / slicing loop")
+    ctx.ob(h, slices[0] if slices else None, ok, "batches are consecutive slices of one iterator, taken until a slice is empty", sel="batch:cover")
